@@ -155,7 +155,7 @@ class Edits:
 
 
 LOG_MACROS = ("debug", "info", "error", "warn", "trace")
-DROP_ATTR_PREFIXES = ("#[tracing::instrument", "#[allow(clippy", "#[error(", "#[from]", "#[serde", "#[clap")
+DROP_ATTR_PREFIXES = ("#[tracing::instrument", "#[allow(clippy", "#[error(", "#[from]", "#[source]", "#[serde", "#[clap")
 
 
 def rule_attrs(toks, lo, hi, edits, log):
@@ -250,6 +250,54 @@ def rule_bytestr(toks, lo, hi, edits, log):
             bs = _decode_bytestr(t.text)
             edits.replace[i] = "(&[" + ", ".join("%du8" % b for b in bs) + "])"
             log("R-bytestr: %s" % t.text)
+
+
+def make_seq_rule(name, from_seq, to_text):
+    """Token-sequence replacement: `<from_seq>` -> `<to_text>`."""
+    want = [t.text for t in lex(from_seq) if t.kind not in WS]
+
+    def rule(toks, lo, hi, edits, log, it=None):
+        s = sig_idx(toks, lo, hi)
+        n = 0
+        while n <= len(s) - len(want):
+            if all(toks[s[n + k]].text == want[k] for k in range(len(want))):
+                if not (n > 0 and want[0] == "std" and toks[s[n - 1]].text == "::"):
+                    edits.delete(s[n], s[n + len(want) - 1] + 1)
+                    edits.ins_before(s[n], to_text, None)
+                    log("%s: `%s` -> `%s`" % (name, from_seq, to_text))
+                    n += len(want)
+                    continue
+            n += 1
+    return rule
+
+
+def make_for_index_rule(iter_text, elem_prefix="&"):
+    """R-for-slice: `for PAT in <iter_text> { B }` over a slice / Vec reference ->
+       `let mut verif_i: usize = 0; while verif_i < <iter_text>.len() { let PAT = &<iter_text>[verif_i]; verif_i += 1; B }`
+    (Rust's in-order slice iteration made explicit; `continue`/`break`/`?` in B keep their meaning)."""
+    want = [t.text for t in lex(iter_text) if t.kind not in WS]
+
+    def rule(toks, lo, hi, edits, log, it=None):
+        s = sig_idx(toks, lo, hi)
+        for n, i in enumerate(s):
+            if toks[i].kind == "id" and toks[i].text == "for":
+                # find `in`
+                m = n + 1
+                while m < len(s) and not (toks[s[m]].kind == "id" and toks[s[m]].text == "in"):
+                    m += 1
+                if m + len(want) >= len(s):
+                    continue
+                if not all(toks[s[m + 1 + k]].text == want[k] for k in range(len(want))):
+                    continue
+                if toks[s[m + 1 + len(want)]].text != "{":
+                    continue
+                pat = toktext(toks, s[n + 1], s[m]).strip()
+                op = s[m + 1 + len(want)]
+                edits.delete(i, op)
+                edits.ins_before(i, "let mut verif_i: usize = 0; while verif_i < %s.len() " % iter_text, None)
+                edits.ins_after(op, " let %s = %s%s[verif_i]; verif_i += 1; " % (pat, elem_prefix, iter_text), None)
+                log("R-for-slice: for %s in %s" % (pat, iter_text))
+    return rule
 
 
 def make_call_rule(name, seq_text, new_callee, extra_arg):
@@ -441,6 +489,7 @@ class Generator:
         self.unverified = []      # stubs / skips with reason
         self.unlisted = []
         self.errors = []
+        self.stub_all = False
         for sf in unit.get("specs", []):
             for b in specfile.parse(os.path.join(VERIF, "contracts", sf)):
                 if b.key() in self.blocks:
@@ -577,12 +626,14 @@ class Generator:
         if canary and it.open is not None and not in_trait_impl and not (blk is not None and blk.stub):
             variants.append(True)
         info = {"file": relfile, "path": fnpath, "name": it.name, "tags": list(blk.tags) if blk else [],
-                "labels": [], "stub": bool(blk and blk.stub), "has_contract": bool(blk and blk.clauses),
+                "labels": [], "stub": bool(blk and blk.stub) or self.stub_all, "has_contract": bool(blk and blk.clauses),
                 "canary": len(variants) > 1, "line": line_of(offs, toks[it.kw].start),
                 "witness": blk.witness if blk else None, "lost_anchors": []}
         self.functions.append(info)
         if blk is not None and blk.stub:
             self.unverified.append({"file": relfile, "item": fnpath, "reason": "R-stub-body: " + blk.stub})
+        elif self.stub_all:
+            self.unverified.append({"file": relfile, "item": fnpath, "reason": "contract assumed in this unit; body verified in the unit that owns the file"})
         for is_canary in variants:
             edits = Edits()
             lg = self.log(relfile, fnpath) if not is_canary else (lambda m: None)
@@ -594,10 +645,15 @@ class Generator:
             for r in extra_rules:
                 r(toks, it.a0, it.end, edits, lg, it)
             if blk is not None:
-                try:
-                    self._splice(it, blk, edits, info, is_canary)
-                except LostAnchor as e:
-                    raise
+                self._splice(it, blk, edits, info, is_canary)
+            elif self.stub_all and it.open is not None:
+                for k in range(it.open + 1, it.end - 1):
+                    edits.before.pop(k, None)
+                    edits.after.pop(k, None)
+                    edits.replace.pop(k, None)
+                edits.delete(it.open + 1, it.end - 1)
+                edits.ins_after(it.open, " unimplemented!() ", None)
+                edits.ins_before(it.a0, "#[verifier::external_body]\n", {"o": "spec", "f": None, "l": 0, "fn": fnpath})
             if is_canary:
                 # rename and add `ensures false`
                 j = next_sig(toks, it.kw + 1, it.end)
@@ -702,7 +758,7 @@ class Generator:
         clauses = []
         for c in blk.clauses:
             clauses.append((c.kind, c.label, c.body, c.line))
-            if c.label and not is_canary:
+            if c.label and not is_canary and not self.stub_all:
                 info["labels"].append(c.label)
                 self.obligations.append({"label": c.label, "fn": it.path(), "file": relfile, "kind": c.kind,
                                          "extra_tags": c.extra_tags, "spec": "%s:%d" % (os.path.basename(blk.specfile), c.line)})
@@ -711,8 +767,14 @@ class Generator:
         self._insert_sig_clauses(it, edits, clauses, fnpath, blk)
         if it.open is None:
             return
-        if blk.stub:
+        if blk.stub or self.stub_all:
             # R-stub-body
+            for k in range(it.open + 1, it.end - 1):
+                edits.before.pop(k, None)
+                edits.after.pop(k, None)
+                edits.replace.pop(k, None)
+            edits.after.pop(it.open, None)
+            edits.before.pop(it.end - 1, None)
             edits.delete(it.open + 1, it.end - 1)
             edits.ins_after(it.open, " unimplemented!() ", sp)
             edits.ins_before(it.a0, "#[verifier::external_body]\n", sp)
@@ -801,13 +863,29 @@ def generate(unit, outdir):
     g = Generator(unit)
     g.out.add(unit.get("header", ""), None)
     g.out.add("verus! {\n", None)
+    cur_mod = None
+    mods = []
     for part in unit["parts"]:
+        opts = part[3] if part[0] == "raw" and len(part) > 3 else (part[2] if part[0] == "repo" and len(part) > 2 else {})
+        m = opts.get("mod")
+        if m != cur_mod:
+            if cur_mod is not None:
+                g.out.add("\n} // mod %s\n" % cur_mod, None)
+            if m is not None:
+                g.out.add("\npub mod %s {\nuse super::*;\n%s\n" % (m, unit.get("mod_uses", {}).get(m, "")), None)
+                if m not in mods:
+                    mods.append(m)
+            cur_mod = m
         if part[0] == "raw":
             g.emit_raw(part[1], part[2])
         elif part[0] == "repo":
-            opts = part[2] if len(part) > 2 else {}
-            g.emit_repo(part[1], only=opts.get("only"), canary=opts.get("canary", True),
+            g.stub_all = bool(opts.get("stub_all"))
+            g.emit_repo(part[1], only=opts.get("only"), canary=opts.get("canary", True) and not g.stub_all,
                         extra_rules=opts.get("rules", ()))
+            g.stub_all = False
+    if cur_mod is not None:
+        g.out.add("\n} // mod %s\n" % cur_mod, None)
+    g.out.add(unit.get("root_uses", ""), None)
     g.out.add("\n} // verus!\nfn main() {}\n", None)
     src, linemap = g.out.render()
     os.makedirs(outdir, exist_ok=True)
